@@ -18,6 +18,9 @@ import (
 	"context"
 	"fmt"
 	"math/rand"
+	"os"
+	"os/exec"
+	"path/filepath"
 	"strings"
 	"time"
 
@@ -367,4 +370,45 @@ func runC16(c *ctx) {
 			c16Concurrent(tier, id, r, o)
 		}
 	})
+	if tier == "thorough" && only < 0 {
+		c16RaceEvidence(c)
+	}
+}
+
+// c16RaceEvidence: the data-race clause is not a theorem.  Supporting evidence only: harness/build_c16.sh builds a small driver
+// with `go build -race` and cancels a few hundred searches from a concurrent goroutine; a report of the race detector is a finding.
+func c16RaceEvidence(c *ctx) {
+	exe, err := os.Executable()
+	if err != nil {
+		c.printf("SAMPLE race detector run skipped: %v\n", err)
+		return
+	}
+	script := filepath.Join(filepath.Dir(exe), "..", "harness", "build_c16.sh")
+	cmd := exec.Command("bash", script, fmt.Sprint(c.seed), "120")
+	out, err := cmd.CombinedOutput()
+	text := string(out)
+	switch {
+	case strings.Contains(text, "DATA RACE"):
+		first := text
+		if i := strings.Index(first, "WARNING: DATA RACE"); i >= 0 {
+			first = first[i:]
+		}
+		if len(first) > 1500 {
+			first = first[:1500]
+		}
+		first = strings.ReplaceAll(strings.ReplaceAll(first, "\n", " // "), "|", "/")
+		c.printf("ORACLE-FAIL data-race | go build -race driver harness/cmd/c16race, seed %d | %s | concurrent cancellation is free of data races\n", c.seed, first)
+		c.stat("race_detector_reports", 1)
+	case err != nil || !strings.Contains(text, "RACE-RUN ok"):
+		c.stat("race_detector_run_failed", 1)
+		c.printf("SAMPLE race detector run (supporting evidence) could not be completed: %v %s\n", err, strings.ReplaceAll(strings.TrimSpace(text), "\n", " // "))
+	default:
+		var n int64
+		if i := strings.Index(text, "cancelled_searches="); i >= 0 {
+			fmt.Sscanf(text[i+len("cancelled_searches="):], "%d", &n)
+		}
+		c.stat("race_detector_cancelled_searches", n)
+		c.stat("race_detector_reports", 0)
+		c.printf("SAMPLE race detector (go build -race, supporting evidence only): %d concurrently cancelled searches, no data race reported\n", n)
+	}
 }
